@@ -11,22 +11,24 @@ EXTENDS SerdeTypes, Json
 
 CONSTANT Tier            \* "quick" | "thorough"
 
-VARIABLES sv, s, phase
-vars == <<sv, s, phase>>
+VARIABLES sv, s, corpus, phase
+vars == <<sv, s, corpus, phase>>
 
 Types == Scalars \cup Composite
 Typed(full) == UNION {{<<x, SchemaOf(ty)>> : x \in TermsOf(ty, full)} : ty \in Types}
 Pairs == Typed(Tier = "thorough") \cup Extra
          \cup {<<x, SchemaOf(HighBytesDefault)>> : x \in TermsOf(HighBytesDefault, FALSE)}
+CorpusPairs == UNION {{<<x, SchemaOf(Corpus[n]), n>> : x \in CorpusTerms(n, Tier = "thorough")} : n \in DOMAIN Corpus}
 
 Targets == {0, 1, 8, 1000000}
 
-Init == /\ \E p \in Pairs : sv = p[1] /\ s = p[2]
+Init == /\ \/ \E p \in Pairs : sv = p[1] /\ s = p[2] /\ corpus = ""
+           \/ \E p \in CorpusPairs : sv = p[1] /\ s = p[2] /\ corpus = p[3]
         /\ phase = "start"
 
 Emit == /\ phase = "start"
-        /\ PrintT("SCN " \o ToJson([sv |-> sv, s |-> s]))
-        /\ phase' = "done" /\ UNCHANGED <<sv, s>>
+        /\ PrintT("SCN " \o ToJson([sv |-> sv, s |-> s, corpus |-> corpus]))
+        /\ phase' = "done" /\ UNCHANGED <<sv, s, corpus>>
 
 Next == Emit
 Spec == Init /\ [][Next]_vars
